@@ -12,7 +12,7 @@ from mc.gen import render
 
 ID = "C14"
 LEVEL = "fault_enumeration"
-LEVEL_TEXT = ("Complete enumeration of valid generated program x every statement position (top level and inside blocks, named scopes, loop bodies, taken .if branches and bodies of applied macros; every top-level variant also with the whole program in an .include'd file) x 67 classes of definite error (plus source files that are not valid UTF-8) "
+LEVEL_TEXT = ("Complete enumeration of valid generated program x every statement position (top level and inside blocks, named scopes, loop bodies, taken .if branches and bodies of applied macros; every top-level variant also with the whole program in an .include'd file) x 69 classes of definite error (plus source files that are not valid UTF-8) "
               "(bad character, bad size suffix, bad index register, unterminated string, unterminated comment, missing closing brace, "
               "stray token, undefined symbol in an operand / in data, undefined macro, too few macro arguments, addressing mode or "
               "width the mnemonic lacks, branch out of range, *= to an unmapped bank, missing .include/.incbin/.table/.include_ips "
@@ -93,6 +93,8 @@ FAULTS = {
     "unclosed-for-block": ".for c14q := 0, 2 {\n.db 1",
     "unclosed-macro-block": ".macro c14unclosed(a) {\n.db a",
     "unclosed-scope-block": ".scope c14sc {\n.db 1",
+    "unsized-operand-wider-than-24-bits": "lda 0x1234567",
+    "unsized-jump-wider-than-24-bits": "jmp 0x1008000",
     "unsized-immediate-wider-than-the-register": "lda #0x12345",
     "unsized-index-immediate-wider-than-the-register": "ldx #0x123456",
     # a file that an EARLIER assembly in this process read successfully and that was deleted since
@@ -135,7 +137,7 @@ def setup(tier, seed):
 
 
 def bound(tier):
-    return "14 base programs x every top-level and nested position x 67 error classes x 5 in-process entry points; 67 x 2 real CLI processes; controls"
+    return "14 base programs x every top-level and nested position x 69 error classes x 5 in-process entry points; 69 x 2 real CLI processes; controls"
 
 
 def base_programs():
